@@ -849,9 +849,9 @@ theorem reportComplete_shape (s : State) (sub : Sub) (keep : Bool) :
   all_goals first | (left; exact ⟨_, _, rfl⟩) | (right; exact ⟨_, _, rfl⟩)
 
 theorem commit_seen (hz : Nat) (c : Ctx) (f : Fin) :
-    let c' := match f with | .retry => c.setKeepRetry hz | _ => c
+    let c' := match f with | .retry => c.setKeepRetry hz | .unsent => c.setKeepUnsent | _ => c
     c'.commit.seenAttr = (match f with | .retry => c.sub.seenAttr | _ => c.nextAttr) := by
-  cases f <;> simp [Ctx.commit, Ctx.setKeepRetry]
+  cases f <;> simp [Ctx.commit, Ctx.setKeepRetry, Ctx.setKeepUnsent]
 
 theorem length_eraseP_find {α} {l : List α} {p : α → Bool} {c : α} (h : l.find? p = some c) :
     (l.eraseP p).length + 1 = l.length := by
@@ -873,15 +873,15 @@ theorem fin_shape {s : State} {id : Nat} {f : Fin} :
   · left; rfl
   · rename_i c hc
     right
-    refine ⟨c, List.mem_of_find?_eq_some hc, (match f with | .retry => c.setKeepRetry s.hz | _ => c).commit, ?_, ?_, length_eraseP_find hc⟩
+    refine ⟨c, List.mem_of_find?_eq_some hc, (match f with | .retry => c.setKeepRetry s.hz | .unsent => c.setKeepUnsent | _ => c).commit, ?_, ?_, length_eraseP_find hc⟩
     rotate_left
     · simp only
       rcases reportComplete_shape ({ s with ctxs := s.ctxs.eraseP (fun c => c.sub.id == id) })
-        ((match f with | .retry => c.setKeepRetry s.hz | _ => c).commit)
+        ((match f with | .retry => c.setKeepRetry s.hz | .unsent => c.setKeepUnsent | _ => c).commit)
         (match f with | .drop => false | _ => true) with ⟨r, cx, h⟩ | ⟨r, cx, h⟩
       · left; exact ⟨r, cx, h⟩
       · right; exact ⟨r, cx, h⟩
-    · cases f <;> simp [Ctx.commit, Ctx.setKeepRetry]
+    · cases f <;> simp [Ctx.commit, Ctx.setKeepRetry, Ctx.setKeepUnsent]
 
 
 
@@ -1012,6 +1012,70 @@ theorem cov_purge {s : State} (h : WF s) (hc : Cov s) : Cov s.purge := by
       intro x hx
       simp [State.live, hctx, this] at hx
 
+/-! ### persist / restart -/
+theorem wf_persist {s : State} (h : WF s) : WF s.persist :=
+  ⟨h.idsBelow, h.logBelow, h.nextPos, h.nextLt, h.seenBelow, h.ctxMono, h.cap, h.count⟩
+
+theorem cov_persist {s : State} (hc : Cov s) : Cov s.persist := hc
+
+theorem wf_resumeOne {s : State} (r : Rec) (now ev : Nat) (h : WF s) : WF (s.resumeOne r now ev) := by
+  unfold State.resumeOne
+  split
+  · exact h
+  · have hwm := watermark_eq h.nextPos h.nextLt
+    refine ⟨h.idsBelow, h.logBelow, h.nextPos, h.nextLt, ?_, h.ctxMono, h.cap, ?_⟩
+    · intro x hx
+      simp only [State.live, List.mem_append, List.mem_map, List.mem_singleton] at hx
+      rcases hx with (hx | rfl) | ⟨c, hc, rfl⟩
+      · exact h.seenBelow x (by simp [State.live, hx])
+      · simp only; omega
+      · exact h.seenBelow _ (by simp only [State.live, List.mem_append, List.mem_map]; right; exact ⟨c, hc, rfl⟩)
+    · simp only [List.length_append, List.length_singleton]; have := h.count; omega
+
+theorem cov_resumeOne {s : State} (r : Rec) (now ev : Nat) (h : WF s) (hc : Cov s) :
+    Cov (s.resumeOne r now ev) := by
+  unfold State.resumeOne
+  split
+  · exact hc
+  · have hwm := watermark_eq h.nextPos h.nextLt
+    intro x hx ip hip hlt
+    simp only [State.live, List.mem_append, List.mem_map, List.mem_singleton] at hx
+    simp only at hip ⊢
+    rcases hx with (hx | rfl) | ⟨c, hcm, rfl⟩
+    · exact hc x (by simp [State.live, hx]) ip hip hlt
+    · have := h.logBelow ip hip
+      simp only at hlt
+      omega
+    · exact hc _ (by simp only [State.live, List.mem_append, List.mem_map]; right; exact ⟨c, hcm, rfl⟩) ip hip hlt
+
+theorem inv_resumeAll (now ev : Nat) : ∀ (rs : List Rec) (s : State), WF s → Cov s →
+    WF (rs.foldl (fun st r => st.resumeOne r now ev) s) ∧
+    Cov (rs.foldl (fun st r => st.resumeOne r now ev) s) := by
+  intro rs
+  induction rs with
+  | nil => intro s h hc; exact ⟨h, hc⟩
+  | cons r rs ih =>
+    intro s h hc
+    simp only [List.foldl_cons]
+    exact ih _ (wf_resumeOne r now ev h) (cov_resumeOne r now ev h hc)
+
+/-- the fresh table of a restart (before `load_persist`) -/
+def State.fresh (s : State) : State := { State.new s.hz s.n with kv := s.kv, epoch := s.epoch + 1 }
+
+theorem wf_fresh (s : State) : WF s.fresh := by
+  refine ⟨?_, ?_, ?_, ?_, ?_, ?_, ?_, ?_⟩ <;> simp [State.fresh, State.new, Changed.new, State.live]
+  decide
+
+theorem cov_fresh (s : State) : Cov s.fresh := by
+  intro x hx; simp [State.fresh, State.new, State.live] at hx
+
+theorem restart_eq (s : State) (now ev : Nat) :
+    s.restart now ev = (s.kv.take s.n).foldl (fun st r => st.resumeOne r now ev) s.fresh := rfl
+
+theorem inv_restart (s : State) (now ev : Nat) : WF (s.restart now ev) ∧ Cov (s.restart now ev) := by
+  rw [restart_eq]
+  exact inv_resumeAll now ev _ _ (wf_fresh s) (cov_fresh s)
+
 /-- **(1) The coverage invariant and well-formedness are preserved by every operation.**
 The only side condition is that change ids do not wrap. -/
 theorem inv_step {s : State} (op : Op) (h : WF s) (hc : Cov s) (hw : s.changed.nextId + 1 < U64) :
@@ -1023,6 +1087,8 @@ theorem inv_step {s : State} (op : Op) (h : WF s) (hc : Cov s) (hw : s.changed.n
   | fin id f => exact ⟨wf_fin id f h, cov_fin id f h hc⟩
   | remove p => exact ⟨wf_remove p h, cov_remove p h hc⟩
   | purge => exact ⟨wf_purge h, cov_purge h hc⟩
+  | persist => exact ⟨wf_persist h, cov_persist hc⟩
+  | restart now ev => exact inv_restart s now ev
 
 
 
